@@ -27,6 +27,16 @@ pub fn gen_value_case(g: &mut G, cfg: &gs::Cfg, op: &str, n_valid: usize, n_mut:
         gen::excluded("optional-cyclic-ref-made-nullable", n);
         // schema defaults on optional scalar / container properties
         add_property_defaults(g, &mut doc);
+        // a tuple whose positions are different in-line objects with optional members only
+        if g.chance(1, 4) {
+            let names = crate::gen::names::benign_props(g, 4);
+            if names.len() == 4 {
+                let a = json!({"type": "object", "properties": {names[0].clone(): {"type": "integer"}, names[1].clone(): {"type": "integer"}}});
+                let b = json!({"type": "object", "properties": {names[2].clone(): {"type": "string"}, names[3].clone(): {"type": "integer"}}});
+                let tuple = json!({"type": "array", "items": [a, b], "minItems": 2, "maxItems": 2});
+                doc["definitions"]["TupleOfOpenObjects"] = if g.chance(1, 2) { tuple } else { json!({"type": "object", "properties": {"ends": tuple}, "required": ["ends"]}) };
+            }
+        }
     }
     let names = gs::def_names(&doc);
     let mut roots = vec![];
